@@ -163,6 +163,8 @@ def search_call(e):
 def classify_marker(ctx, ci, fi, regex):
     repo = ctx.repo
     w = repo.walker(inline_depth=ctx.depth, max_paths=ctx.max_paths, split_ifexp=True)
+    w.strip_asserts = True          # a "delimiter found" test written as an assert is no test under python -O
+    w.unbound_raises = True
     entry = strategy_entry(repo, ci, fi, (lambda g: g == "hasattr(self.until_marker, 'search')") if regex else (lambda g: g == 'isinstance(self.until_marker, bytes)'))
     if entry is not None:
         # a locator chosen by _compile for this kind of marker is followed
